@@ -140,7 +140,7 @@ int unitsIndexByName(const ModelSpec &spec, const std::string &name)
 std::string importAttr(const ModelSpec &spec, int import, const std::string &ref)
 {
     if (import < 0) {
-        return "local|";
+        return "local|" + f(ref); // the import reference is an attribute of its own, also without an import source
     }
     return "imp|" + f(spec.imports[S(import)].url) + f(spec.imports[S(import)].id) + f(ref);
 }
@@ -169,7 +169,7 @@ std::string unitsAttrsByName(const ModelSpec &spec, const std::string &name, boo
     if (ui >= 0) {
         return unitsAttrs(spec, ui, coarse);
     }
-    return "U|" + f(name) + f("") + "local|"; // Variable::setUnits(name): a fresh, empty units object of that name
+    return "U|" + f(name) + f("") + "local|" + f(""); // Variable::setUnits(name): a fresh, empty units object of that name
 }
 
 std::string varAttrs(const ModelSpec &spec, int ci, int k, bool coarse)
@@ -824,6 +824,31 @@ std::vector<Mut> enumerateMutations(const ModelSpec &spec, const Loc &top, Where
 {
     std::vector<Mut> out;
     const Scope sc = scopeOf(spec, top);
+    if (where == LOCAL_IMPORT_REFERENCE) {
+        auto add = [&](const std::string &kind, bool inside, char site, int ci, int ui) {
+            Mut m;
+            m.kind = kind;
+            m.inside = inside;
+            m.depth = inside ? siteDepth(spec, top, site, ci) : -1;
+            m.ci = ci;
+            m.ui = ui;
+            out.push_back(m);
+        };
+        for (size_t u = 0; u < spec.units.size(); ++u) {
+            add(spec.units[u].import < 0 ? "units.local-import-ref" : "units.import-source-removed", sc.units.count(static_cast<int>(u)) != 0, 'U', -1, static_cast<int>(u));
+        }
+        for (size_t ci = 0; ci < spec.comps.size(); ++ci) {
+            add(spec.comps[ci].import < 0 ? "comp.local-import-ref" : "comp.import-source-removed", sc.comps.count(static_cast<int>(ci)) != 0, 'C', static_cast<int>(ci), -1);
+        }
+        // prefer sites the top entity's equality covers
+        std::vector<Mut> in;
+        for (const auto &m : out) {
+            if (m.inside) {
+                in.push_back(m);
+            }
+        }
+        return in.empty() ? out : in;
+    }
     auto push = [&](const std::string &kind, bool inside, char site, int ci, int k, int ui, int uk, int ii, int bump = 0) {
         if (where == EQUIVALENCES || (where == INSIDE && !inside)) {
             return;
@@ -1064,6 +1089,14 @@ std::string applyMutation(ModelSpec &spec, const Mut &m, Src &src, Loc &top)
         }
         spec.comps.push_back(c);
         what += " under #" + std::to_string(m.ci);
+    } else if (kd == "units.local-import-ref" || kd == "comp.local-import-ref") {
+        std::string &ref = kd[0] == 'u' ? spec.units[S(m.ui)].importRef : spec.comps[S(m.ci)].importRef;
+        what += kd[0] == 'u' ? " units #" + std::to_string(m.ui) : " component #" + std::to_string(m.ci);
+        chg(ref, {}, "ref_l");
+    } else if (kd == "units.import-source-removed" || kd == "comp.import-source-removed") {
+        // the import source goes, the reference stays behind
+        (kd[0] == 'u' ? spec.units[S(m.ui)].import : spec.comps[S(m.ci)].import) = -1;
+        what += kd[0] == 'u' ? " units #" + std::to_string(m.ui) : " component #" + std::to_string(m.ci);
     } else if (kd.rfind("units.", 0) == 0) {
         auto &u = spec.units[S(m.ui)];
         what += " units #" + std::to_string(m.ui) + " '" + u.name + "'";
@@ -1342,6 +1375,58 @@ std::string applyMutation(ModelSpec &spec, const Mut &m, Src &src, Loc &top)
         }
     }
     return what;
+}
+
+// ------------------------------------------------------------------------------------------------ import reference without source
+
+void applyLocalImportReferences(const ModelSpec &spec, const Built &b, bool viaSource)
+{
+    auto apply = [&](const ImportedEntityPtr &e, const std::string &ref) {
+        if (viaSource) {
+            auto tmp = ImportSource::create();
+            tmp->setUrl("once_imported.cellml");
+            e->setImportSource(tmp);
+            e->setImportReference(ref);
+            e->setImportSource(nullptr);
+        } else {
+            e->setImportReference(ref);
+        }
+    };
+    for (size_t ui = 0; ui < spec.units.size(); ++ui) {
+        if (spec.units[ui].import < 0 && !spec.units[ui].importRef.empty()) {
+            apply(b.units[ui], spec.units[ui].importRef);
+        }
+    }
+    for (size_t ci = 0; ci < spec.comps.size(); ++ci) {
+        if (spec.comps[ci].import < 0 && !spec.comps[ci].importRef.empty()) {
+            apply(b.comps[ci], spec.comps[ci].importRef);
+        }
+    }
+}
+
+std::string addLocalImportReference(ModelSpec &spec, uint64_t pick, const std::string &reference)
+{
+    std::vector<std::pair<char, size_t>> sites;
+    for (size_t ci = 0; ci < spec.comps.size(); ++ci) {
+        if (spec.comps[ci].import < 0) {
+            sites.emplace_back('c', ci);
+        }
+    }
+    for (size_t ui = 0; ui < spec.units.size(); ++ui) {
+        if (spec.units[ui].import < 0) {
+            sites.emplace_back('u', ui);
+        }
+    }
+    if (sites.empty()) {
+        return "";
+    }
+    auto s = sites[pick % sites.size()];
+    if (s.first == 'c') {
+        spec.comps[s.second].importRef = reference;
+        return "component #" + std::to_string(s.second);
+    }
+    spec.units[s.second].importRef = reference;
+    return "units #" + std::to_string(s.second);
 }
 
 // ------------------------------------------------------------------------------------------------ API-level permutation
